@@ -228,11 +228,9 @@ def main(ctx):
                         continue
                     methods = ["mle"] + (["lsq", "wlsq"] if fam == "ExponentiatedWeibullDistribution" else [])
                     for method in methods:
-                        srcs = [("own", 1), ("own", 2), ("other", 1)]
-                        ns = (200,) if ctx.quick else (200, 2000)
+                        srcs = [("own", 1), ("own", 2), ("other", 1)] + ([] if ctx.quick else [("own", 3), ("other", 2)])
+                        ns = (200, 2000) if ctx.quick else (50, 200, 2000, 10000)
                         for (src, seed), n in itertools.product(srcs, ns):
-                            if ctx.quick and (src, seed) == ("own", 2):
-                                continue
                             cases.append({"family": fam, "fixed": list(fx), "which": which, "mode": "fit",
                                           "method": method, "source": src, "n": n, "seed": seed})
                     for mode in ("condfit", "ghmfit"):
